@@ -245,6 +245,24 @@ def _replay_flow(c):
     return True, f'calibrate raises {type(ex).__name__}', (
         f"skeleton={d['skeleton']} recipe={d['recipe']}: calibrate: "
         f'{type(ex).__name__}: {ex}')
+  # which runtime tensors got statistics vs which the quantization phase
+  # (real RecipeManager on the quantization scope) selects
+  want, runtime = set(), set()
+  for key, sd in c09.signatures(model):
+    si = sd.subgraphIndex
+    sg = model.subgraphs[si]
+    from symx import oracles as _o
+    for ti, t in enumerate(sg.tensors):
+      if not _o.has_data(model, t):
+        runtime.add(_o.tname(t))
+    for ti in c09.selected_runtime_tensors(model, q._recipe_manager, si):
+      want.add(_o.tname(sg.tensors[ti]))
+  got = {k for k in (res or {}) if k in runtime}
+  if got != want:
+    return True, 'calibration and quantization select different operators', (
+        f"skeleton={d['skeleton']} recipe={d['recipe']}: statistics collected "
+        f'for {sorted(got - want)} although quantization does not select '
+        f'their ops; missing for {sorted(want - got)}')
   try:
     q.quantize(res)
   except Exception as ex:  # pylint: disable=broad-except
